@@ -239,6 +239,8 @@ def run(ctx):
             return "empty"
         return None
     def classify_from_raw(e):
+        if e[0] == "discr" and has_call(e, lambda c: c.endswith("split_first")):
+            return "empty"                     # `let Some((first, rest)) = raw.split_first() else { .. }`
         if (e[0] == "bin" and e[1] == "Eq" and ("const", 0) in (e[2], e[3]) and has_call(e, lambda c: c.endswith("::len"))) or (e[0] == "call" and str(e[1]).endswith("::is_empty")):
             return "empty"
         if e[0] == "bin" and e[1] in ("Gt", "Ge", "Lt", "Le") and has_call(e, lambda c: c.endswith("::len")) and any(x[0] == "const" and isinstance(x[1], int) and x[1] >= 0xFFFF for x in expr_walk(e)):
